@@ -152,7 +152,10 @@ class Tensor:
     # aliasing accessors
     @property
     def data(self):
-        return self
+        # torch: a tensor sharing the storage, detached from autograd (requires_grad False, not a Parameter)
+        v = Tensor._view(self, self.shape, range(len(self.els)))
+        v.requires_grad = False
+        return v
 
     @data.setter
     def data(self, v):
